@@ -19,6 +19,7 @@ import (
 	"regexp"
 	"runtime"
 	"runtime/debug"
+	"runtime/pprof"
 	"sort"
 	"strconv"
 	"strings"
@@ -188,6 +189,12 @@ func worker(id, tier string, idx, W int, seed int64, out string) {
 	}
 	known := loadKnown()
 	start := time.Now()
+	if pf := os.Getenv("VERIF_CPUPROFILE"); pf != "" { // development aid
+		if f, err := os.Create(fmt.Sprintf("%s.%d", pf, idx)); err == nil {
+			pprof.StartCPUProfile(f)
+			defer pprof.StopCPUProfile()
+		}
+	}
 	if os.Getenv("VERIF_STACK_X2") != "" {
 		debug.SetMaxStack(2 << 30) // see triage in driver
 	}
